@@ -570,14 +570,15 @@ static void minMaxCases(void)
 		for (pos = 0; pos < n; ++pos)
 		{
 			int kind;
-			for (kind = 0; kind < 4; ++kind)
+			for (kind = 0; kind < (pos == 0 ? 6 : 4); ++kind)
 			{
 				size_t a[6], r;
 				for (i = 0; i < n; ++i) a[i] = kind < 2 ? POOL[2 + vxRandN(np - 4)] : (size_t)vxRand64() >> vxRandN(40);
 				if (kind == 0) a[pos] = POOL[vxRandN(2)];				/* unique minimum candidates 0 / 1 */
 				else if (kind == 1) a[pos] = POOL[np - 1 - vxRandN(2)];	/* maximum candidates */
 				else if (kind == 3 && n > 1) a[(pos + 1) % n] = a[pos];	/* tie */
-				CLS("n=%zu:pos=%zu:%s", n, pos, kind == 0 ? "low" : kind == 1 ? "high" : kind == 2 ? "random" : "tie");
+				else if (kind >= 4) for (i = 0; i < n; ++i) a[i] = kind == 4 ? (size_t)-1 : 0;	/* every number is the end of the range */
+				CLS("n=%zu:pos=%zu:%s", n, pos, kind == 0 ? "low" : kind == 1 ? "high" : kind == 2 ? "random" : kind == 3 ? "tie" : kind == 4 ? "all-max" : "all-zero");
 				r = callMin(n, a); head("utilMin"); jSizes("args", a, n); jU64("res", r); jEnd();
 				r = callMax(n, a); head("utilMax"); jSizes("args", a, n); jU64("res", r); jEnd();
 			}
